@@ -4,7 +4,10 @@
 //
 // Output, one record per line, tab separated:
 //   C <stream> <driver input> <Go's canonical answer>     correspondence pair (tie 2)
-//   V <json>                                             the property's own predicate failed on the implementation
+//   J <configuration> <outcome>                          what Load(Write(c)) and Write(Load(Write(c))) did for c: the check
+//                                                        judges it a violation when the MODEL says c is valid (inside
+//                                                        C19's quantifier) and the outcome is not `same`
+//   V <json>                                             a failure whatever the configuration (panic, write error)
 //   S <json>                                             statistics of this run
 package main
 
@@ -113,7 +116,12 @@ var (
 	dir   string
 )
 
+var corrOff = false
+
 func emit(stream, in, res string) {
+	if corrOff {
+		return
+	}
 	fmt.Fprintf(out, "C\t%s\t%s\t%s\n", stream, in, res)
 	stats["pairs_"+stream]++
 }
@@ -158,28 +166,34 @@ func loadRes(text []byte) (*project.Config, string) {
 	return c, "ok " + cfgStr(c)
 }
 
-// valid: inside the quantifier of C19 (DESIGN.md §4)
-func valid(c *project.Config) bool {
+// utf8ok: all strings valid UTF-8 (the rest of C19's quantifier — canonical versions, paths in clean form — is decided by
+// the model, not here and not by the implementation's own CleanPath)
+func utf8ok(c *project.Config) bool {
 	ok := utf8.ValidString(c.Name) && utf8.ValidString(c.Version)
 	for _, s := range c.Ignore {
 		ok = ok && utf8.ValidString(s)
 	}
 	for k, r := range c.Requirements {
 		ok = ok && utf8.ValidString(k) && utf8.ValidString(r.Path) && utf8.ValidString(r.Version)
-		ok = ok && semver.IsValid(r.Version) && semver.Canonical(r.Version) == r.Version
-		ok = ok && project.CleanPath(r.Path) == r.Path
 	}
 	return ok
+}
+
+func judged(in, outcome string) {
+	fmt.Fprintf(out, "J\t%s\t%s\n", in, outcome)
+	stats["judge_records"]++
+	stats["judge_outcome_"+strings.SplitN(outcome, " ", 2)[0]]++
 }
 
 func oneConfig(c *project.Config, r *rng) {
 	stats["configs"]++
 	in := cfgStr(c)
-	isValid := valid(c)
-	if isValid {
-		stats["configs_valid"]++
-	}
 	stats[fmt.Sprintf("configs_with_%d_requirements", len(c.Requirements))]++
+	for _, rq := range c.Requirements {
+		if i := strings.LastIndexByte(rq.Path, '@'); i >= 0 && !strings.Contains(rq.Path[i:], "/") {
+			stats["requirement_paths_with_at_in_last_element"]++
+		}
+	}
 	text, err := write(c)
 	if err != nil {
 		violation("write-failed", c, err.Error())
@@ -192,29 +206,27 @@ func oneConfig(c *project.Config, r *rng) {
 		violation("panic", c, "LoadConfigBytes panicked on a written file")
 		return
 	}
-	if !isValid {
-		return
-	}
-	// ---- C19 judged on the implementation
-	stats["round_trips_judged"]++
-	if c2 == nil {
-		violation("written-file-does-not-load", c, fmt.Sprintf("%s; file:\n%s", res, text))
-		return
-	}
-	if cfgStr(c2) != in {
-		violation("loaded-configuration-differs", c, fmt.Sprintf("loaded %+q; file:\n%s", *c2, text))
-		return
-	}
-	text2, err := write(c2)
-	if err != nil {
-		violation("write-failed", c, err.Error())
-		return
-	}
-	if !bytes.Equal(text, text2) {
-		violation("rewrite-not-stable", c, fmt.Sprintf("first:\n%s\nsecond:\n%s", text, text2))
+	// ---- C19 on the implementation: the outcome is recorded for every configuration; whether the configuration is
+	// inside the quantifier is the model's decision (checks/C19.py)
+	if utf8ok(c) {
+		switch {
+		case c2 == nil:
+			judged(in, "noload "+hx(fmt.Sprintf("%s; file: %s", res, text)))
+		case cfgStr(c2) != in:
+			judged(in, "differs "+hx(fmt.Sprintf("loaded %+q; file: %s", *c2, text)))
+		default:
+			text2, err := write(c2)
+			if err != nil {
+				violation("write-failed", c, err.Error())
+			} else if !bytes.Equal(text, text2) {
+				judged(in, "unstable "+hx(fmt.Sprintf("first: %s second: %s", text, text2)))
+			} else {
+				judged(in, "same")
+			}
+		}
 	}
 	// ---- the same configuration in another layout (blanks, blank lines, key order): correspondence only
-	if r != nil {
+	if r != nil && c2 != nil {
 		for k := 0; k < 2; k++ {
 			vt := variant(c, r)
 			_, vres := loadRes([]byte(vt))
@@ -359,7 +371,15 @@ func genBadVersion(r *rng) string {
 	return r.pick([]string{"", "v1", "v1.2", "1.2.3", "v01.2.3", "v1.2.3+build", "v1.2.3-", "v1.2.3-01", "v1.2.3-a..b", "v1.2.3 ", "V1.2.3", "v1.2.3-é", "latest", "v1.2.3-a+b", "v1.02.3", "v1.2.3.4", "v-1.2.3", "v1.2.3-a_b"})
 }
 
-func genPath(r *rng) (string, bool) {
+// suffixes after an `@` in the last element: majors that are dropped (v0, v1, empty), majors that are kept, and things
+// that are not majors at all — all of the latter two are fixed points of CleanPath
+var atSuffixes = []string{"v2", "v3", "v10", "v0", "v1", "", "x", "main", "dev", "v03", "v1.2", "v2.0.0", "latest", "V2", "v", "2", "v2@dev", "b@c", "v1@v1", "dev@v2", "@", "é"}
+
+// genPath: a path in clean form *by construction* (non-empty elements other than `.` and `..`, single slashes, an
+// optional `@suffix` on the last element and sometimes on inner elements), never passed through the implementation's
+// CleanPath. Whether it is a fixed point (it is unless the suffix is one that is dropped) is the model's decision.
+func genPath(r *rng) string {
+	elems := []string{"github.com", "a", "b", "dawn", "x.y", "é", "世", "a b", "a'b", "a\"b", "a\\b", "\t", "\x01", "v2", "-", "...", "..a", "user@host", "git@example.com", "a@v2", "@", "x@dev", "\U0001F600"}
 	var b strings.Builder
 	if r.below(8) == 0 {
 		b.WriteString("/")
@@ -368,19 +388,20 @@ func genPath(r *rng) (string, bool) {
 		if k > 0 {
 			b.WriteString("/")
 		}
-		b.WriteString(r.pick([]string{"github.com", "a", "b", "dawn", "x.y", "é", "世", "a b", "a'b", "a\"b", "a\\b", "\t", "\x01", "@", "v2", "a@b", "\U0001F600", "-"}))
+		b.WriteString(r.pick(elems))
 	}
 	if r.below(2) == 0 {
-		b.WriteString("@" + r.pick([]string{"v2", "v3", "v10", "v0", "v1", "", "x", "v2@v3", "main"}))
+		b.WriteString("@" + r.pick(atSuffixes))
 	}
-	p := b.String()
-	q := project.CleanPath(p)
-	if project.CleanPath(q) != q {
-		stats["paths_whose_cleaned_form_is_not_a_fixed_point_observation"]++
-		return q, false
-	}
-	return q, true
+	return b.String()
 }
+
+// paths that are not in clean form (for the tie only)
+var uncleanPaths = []string{"", "a/../b", "a//b", "a/", "./a", "a@v1", "a@", "a@v0", "a/b/..@v2", "a@v1@v1", "../x/..", "a/./b@v3", "a/@v2", "x@dev/", "a@b@"}
+
+var atPaths = []string{"x@dev", "reqs/devlib@dev", "x@v03", "x@v1.2", "user@host/x", "git@example.com/a/b", "x@", "x@v2@dev", "a@b@c",
+	"a@@b", "@", "@v2", "a/@v2", "a@v2/b", "a@v2/b@v3", "a@v1/b", "a@dev/b@dev", "x@v2", "x@v10", "x@v0", "x@v1", "x@v1@v1", "x@v2@v1", "x@V2",
+	"x@v2.0.0", "x@2", "x@latest", "x@main", "a/b@é", "a.b/c-d@v3", "/abs@dev", "x@v", "x@vv2", "x@v2 ", "x@ v2", "x@-"}
 
 func genConfig(r *rng, wantValid bool) *project.Config {
 	c := &project.Config{}
@@ -396,17 +417,15 @@ func genConfig(r *rng, wantValid bool) *project.Config {
 	if n := r.below(5); n > 0 || r.below(6) == 0 {
 		c.Requirements = map[string]project.RequirementConfig{}
 		for k := 0; k < n; k++ {
-			p, fixed := genPath(r)
+			p := genPath(r)
 			v := genVersion(r)
 			if !wantValid {
 				switch r.below(3) {
 				case 0:
 					v = genBadVersion(r)
 				case 1:
-					p = r.pick([]string{"", "a/../b", "a//b", "a/", "./a", "a@v1", "a@", "a@v0", "a/b/..@v2", "a@v1@v1", "../x", "a/./b@v3"})
+					p = r.pick(uncleanPaths)
 				}
-			} else if !fixed {
-				p = "github.com/a/b"
 			}
 			c.Requirements[genStr(r)] = project.RequirementConfig{Path: p, Version: v}
 		}
@@ -434,6 +453,7 @@ func main() {
 	defer os.RemoveAll(dir)
 
 	if *rp != "" {
+		corrOff = true
 		oneConfig(parseCfg(*rp), nil)
 		return
 	}
@@ -452,9 +472,12 @@ func main() {
 			s:       {Path: "github.com/a/b@v2", Version: "v2.0.0"},
 			s + "z": {Path: "x", Version: "v0.0.0-20210101000000-abcdef123456"},
 			"a" + s: {Path: ".", Version: "v1.0.0-rc.1"}}}, r)
-		if p := project.CleanPath(s); project.CleanPath(p) == p {
-			oneConfig(&project.Config{Requirements: map[string]project.RequirementConfig{"k": {Path: p, Version: "v1.2.3"}}}, r)
-		}
+		oneConfig(&project.Config{Requirements: map[string]project.RequirementConfig{"k": {Path: "p/" + s + "x", Version: "v1.2.3"}}}, r)
+	}
+	// requirement paths whose last (or another) element contains an `@`: kept majors, non-majors, several `@`
+	for _, p := range atPaths {
+		oneConfig(&project.Config{Name: "n", Ignore: []string{"i"}, Requirements: map[string]project.RequirementConfig{
+			"k": {Path: p, Version: "v1.2.3"}, "other": {Path: "github.com/a/b", Version: "v0.1.0"}}}, r)
 	}
 	stats["directed_configs"] = stats["configs"]
 
@@ -472,12 +495,21 @@ func main() {
 	stats["random_configs"] = n + n/5
 
 	// ---------------------------------------------------------------- 3. CleanPath and the version test on their own
+	for _, p := range append(append([]string{}, atPaths...), uncleanPaths...) {
+		emit("config.cleanpath", "cleanpath "+hx(p), hx(project.CleanPath(p)))
+		for _, q := range []string{p + "/", "a/" + p, p + "/b", p + "@v2", p + "@v1", p + "@dev", "./" + p, p + "/..", p + "//" + p} {
+			emit("config.cleanpath", "cleanpath "+hx(q), hx(project.CleanPath(q)))
+		}
+	}
 	for i := 0; i < n; i++ {
 		var b strings.Builder
 		for k, l := 0, r.below(7); k < l; k++ {
-			b.WriteString(r.pick([]string{"a", "b", "/", "/", ".", "..", "@", "@v1", "@v2", "@v0", "v2", "é", "//", "/./", "@@", "\x00"}))
+			b.WriteString(r.pick([]string{"a", "b", "/", "/", ".", "..", "@", "@v1", "@v2", "@v0", "v2", "é", "//", "/./", "@@", "\x00", "@dev", "@v03", "@v1.2", "@v2@dev", "user@host", "@b@c", "@v10", "@V2"}))
 		}
 		p := b.String()
+		if i%3 == 0 {
+			p = genPath(r)
+		}
 		emit("config.cleanpath", "cleanpath "+hx(p), hx(project.CleanPath(p)))
 		var v string
 		if r.below(2) == 0 {
